@@ -637,6 +637,8 @@ fn scenario_directed(t: &mut Trace) {
     s.exec(t, "transfer_from", &[1, 0, 2], 10, 0, &[1]);
     s.advance(t, 1);
     s.exec(t, "transfer_from", &[1, 0, 2], 10, 0, &[1]);
+    s.exec(t, "transfer_from", &[1, 0, 2], 390, 0, &[1]); // exactly what the expired entry still holds
+    s.exec(t, "burn_from", &[1, 0], 390, 0, &[1]);
     s.exec(t, "approve", &[0, 1], 7, 121, &[0]);
     s.exec(t, "transfer_from", &[1, 0, 2], 7, 0, &[1]);
     s.exec(t, "transfer_from", &[1, 0, 2], 1, 0, &[1]);
@@ -878,6 +880,8 @@ fn scenario_c02(t: &mut Trace) {
         s.exec(t, "burn_from", &[4, 3], 50, 0, &[4]);
         s.advance(t, 1);
         s.exec(t, "burn_from", &[4, 3], 50, 0, &[4]); // expired, storage entry alive until 5100
+        s.exec(t, "burn_from", &[4, 3], 150, 0, &[4]); // exactly the whole amount left in the dead entry (seed C02-r11-1)
+        s.exec(t, "transfer_from", &[4, 3, 0], 150, 0, &[4]); // the twin path, same amount
         s.exec(t, "burn_from", &[4, 3], 50, 0, &[3]);
         s.exec(t, "approve", &[3, 4], 20, 5011, &[3]); // set on the live entry
         s.exec(t, "burn_from", &[4, 3], 20, 0, &[4]);
